@@ -1,3 +1,5 @@
 import Driver.Common
 import Driver.Dominance
 import Driver.Archive
+import Driver.Num
+import Driver.Catchment
